@@ -167,6 +167,20 @@ def apply(w, ev):
         return [die_obs(d) for d in dw.get_CU_at(ev[1]).iter_DIEs()]
     if k == 'DIE_at':
         return die_obs(dw.get_DIE_from_refaddr(ev[1]))
+    if k == 'hold_DIE':
+        # the client keeps this entry object: later navigation starts from the SAME object, whatever the unit's caches did in between
+        w.held['die'] = dw.get_DIE_from_refaddr(ev[1])
+        w.held['die_off'] = ev[1]
+        return die_obs(w.held['die'])
+    if k == 'held':
+        d = w.held.get('die')
+        if d is None:
+            return 'nothing-held'
+        if ev[1] == 'parent':
+            return die_obs(d.get_parent())
+        if ev[1] == 'children':
+            return [die_obs(x) for x in d.iter_children()]
+        return [die_obs(x) for x in d.iter_siblings()]
     if k == 'parent':
         return die_obs(dw.get_DIE_from_refaddr(ev[1]).get_parent())
     if k == 'children':
@@ -283,7 +297,7 @@ class C10Model(H.Model):
         reqs = []
         done = self.__dict__.setdefault('_precomputed', set())
         for ev in events:
-            if ev[0] in ('next', 'drop', 'scramble', 'foreign', 'new_dwarf_info'):
+            if ev[0] in ('next', 'drop', 'scramble', 'foreign', 'new_dwarf_info', 'hold_DIE', 'held'):
                 continue
             if ev[0] == 'open':
                 r = ('iter', ev[1], ev[2])
@@ -317,6 +331,12 @@ class C10Model(H.Model):
             return w.last_expected
         if ev[0] in ('open', 'drop'):
             return repr('opened' if ev[0] == 'open' else 'dropped')
+        if ev[0] == 'hold_DIE':
+            return self.fresh_obs(('DIE_at', ev[1]))
+        if ev[0] == 'held':
+            if w.held.get('die') is None:
+                return repr('nothing-held')
+            return self.fresh_obs((ev[1], w.held['die_off']))       # what a fresh object says about the entry at that offset
         return self.fresh_obs(ev)
 
 
@@ -462,6 +482,13 @@ def derive_events(data, max_dies=40, iterators=True, scramble=True, light=False,
             if e[0] == 'siblings':
                 more.append(('siblings', e[1]))
                 break
+    if has_dw:
+        nav = [e[1] for e in ev if e[0] == 'siblings' and ('parent', e[1]) in ev and ('children', e[1]) in ev and ('DIE_at', e[1]) in ev]
+        for o in nav[:2] + nav[-1:]:
+            if ('hold_DIE', o) not in ev:
+                ev.append(('hold_DIE', o))
+        if nav:
+            ev += [('held', 'parent'), ('held', 'children'), ('held', 'siblings')]
     if all_iters is not None:
         all_iters.extend(iters + [m for m in more if m not in iters])
     if iterators:
@@ -485,6 +512,8 @@ def _machine_specific():
 
 
 def model_file(kind):
+    if kind == 'M3':
+        return elfwrap.wrap(big_flat_model(), 64, True, with_symbols=False, addresses={})[0]
     if kind in ('M0', 'M0n'):
         secs, meta = payloads.make('m0', True, 32, 8)
         data, _ = elfwrap.wrap(secs, 64, True, with_symbols=True, addresses=meta['addresses'])
@@ -511,18 +540,75 @@ def interleaving_family(events, iters, pairs=True):
     -> (alphabet, histories)"""
     others = [e for e in events if e[0] not in ('open', 'next', 'drop')]
     hs = []
+
+    def summaries(kind, arg):
+        """complete enumerations over the same data as iterator (kind, arg): what a damaged cache would show AFTER the interleaving"""
+        want = {'DIEs': [('dump', arg), ('children',), ('siblings',)], 'children': [('children', arg), ('dump',)], 'siblings': [('siblings', arg), ('dump',)],
+                'TUs': [('TUs',), ('by_sig8',)], 'CUs': [('iter_CUs',), ('dump',)], 'symbols': [('num_symbols', arg), ('symbol_by_name', arg)], 'sections': [('num_sections',), ('section_by_name',)],
+                'tags': [('tags',)], 'dynseg_tags': [('tags',)], 'dynseg_symbols': [('dynseg_symbols',)], 'notes': [('notes', arg)], 'verdefs': [('verdef_get',)], 'verneeds': [('verneed_get',)]}.get(kind, [])
+        out = []
+        for pat in want:
+            m = [e for e in others if e[:len(pat)] == pat]
+            out += m[:2]
+        return out
     for kind, arg in iters:
         o = ('open', kind, arg, 0)
+        sm = summaries(kind, arg)
         for x in others:
             for p in (1, 2):
                 hs.append((o,) + (('next', 0),) * p + (x, ('next', 0), ('next', 0)))
+            # ... and what a complete enumeration says after the interrupted walk was resumed (a walk that re-parses and appends shows up only there)
+            if x in sm:
+                for y in sm:
+                    hs.append((o, ('next', 0), x, ('next', 0), ('next', 0), y))
         hs.append((o,) + (('next', 0),) * 8)
+        # two live walks over the same data: the first runs to its end, the one started later is abandoned part-way (and the other way round), then a complete enumeration
+        o1 = ('open', kind, arg, 1)
+        for y in sm:
+            hs.append((o, o1, ('next', 1)) + (('next', 0),) * 8 + (y,))
+            hs.append((o, o1, ('next', 0)) + (('next', 1),) * 8 + (y,))
+            hs.append((o, o1, ('next', 0), ('next', 1)) + (('next', 0),) * 8 + (y,))       # both under way; the one that STARTED first finishes
+            hs.append((o, o1, ('next', 1), ('next', 0)) + (('next', 1),) * 8 + (y,))
     if pairs:
         for k1, a1 in iters:
             for k2, a2 in iters:
                 hs.append((('open', k1, a1, 0), ('open', k2, a2, 1)) + (('next', 0), ('next', 1)) * 3)
     alphabet = others + [('open', k, a, sl) for k, a in iters for sl in (0, 1)] + [('next', 0), ('next', 1)]
     return alphabet, hs
+
+
+def held_family(events):
+    """Pass H: an entry object is kept by the client, the unit is then walked / queried some other way, and navigation resumes from the kept object."""
+    holds = [e for e in events if e[0] == 'hold_DIE']
+    helds = [e for e in events if e[0] == 'held']
+    walkers = [e for e in events if e[0] in ('dump', 'children', 'siblings', 'iter_CUs', 'DIE_at', 'parent', 'follow', 'new_dwarf_info', 'foreign', 'scramble', 'TUs', 'lut_DIE')]
+    hs = []
+    for h in holds:
+        for x in helds:
+            hs.append((h, x, x))
+            for wv in walkers:
+                hs.append((h, wv, x))
+            for w1 in walkers[:12]:
+                for w2 in [e for e in walkers if e[0] == 'dump'][:2]:
+                    hs.append((h, w1, w2, x))
+    return [e for e in events if e[0] not in ('open', 'next', 'drop')], hs
+
+
+def big_flat_model():
+    """M3: one unit with more entries than any plausible per-unit cache bound (2 500 children of the root, one byte each, a few named ones in between)."""
+    from mcx import dwarfgen as dg
+    from mcx.dwarfgen import DP, Abbrev, Die, Unit, null, TAG, AT, F
+    dp = DP(True, 32, 8, 4)
+    a_cu = Abbrev(1, TAG['compile_unit'], True, [(AT['name'], F['string'], None)])
+    a_leaf = Abbrev(2, TAG['base_type'], False, [])
+    a_named = Abbrev(3, TAG['variable'], False, [(AT['name'], F['string'], None)])
+    a_par = Abbrev(4, TAG['subprogram'], True, [(AT['name'], F['string'], None)])
+    kids = [Die(a_named, [b'first'], label='first'), Die(a_par, [b'fn'], [Die(a_named, [b'inner'], label='inner'), null()], label='fn')]
+    kids += [Die(a_leaf, []) for _ in range(2500)]
+    kids += [Die(a_named, [b'last'], label='last'), null()]
+    asm = dg.Assembly([Unit(dp, Die(a_cu, [b'big.c'], kids, label='root'))], le=True)
+    secs = asm.assemble()
+    return {k: secs[k] for k in ('.debug_info', '.debug_abbrev')}
 
 
 # ---- the check is organised as bulk "units": each unit is one (system, pass) exploration ----------------
@@ -533,13 +619,13 @@ QUICK_CORPUS = ['gcc_tailcall.o.elf', 'clang33-simple.o', 'compressed_32.o', 'li
 def _units(tier):
     quick = tier == 'quick'
     if quick:
-        u = [('M0', 'A', 2), ('M1', 'A', 2), ('M1', 'C', 8), ('M2', 'C', 8), ('M0', 'B', 2), ('M1', 'B', 2), ('M0n', 'B', 3)]
+        u = [('M0', 'A', 2), ('M1', 'A', 2), ('M1', 'C', 8), ('M2', 'C', 8), ('M0', 'H', 4), ('M1', 'H', 4), ('M3', 'H', 4), ('M0', 'B', 2), ('M1', 'B', 2), ('M0n', 'B', 3)]
         for name, d in corpus_files(4096):
             if name in QUICK_CORPUS:
                 u.append(('corpus:' + name, 'A', 2))
         return u
     # bounded units first (passes A and C on the models and on every vendored corpus file: never time-capped), then the deep searches, which share the time budget
-    u = [('M0', 'A', 2), ('M1', 'A', 2), ('M2', 'A', 2), ('M0', 'C', 8), ('M1', 'C', 8), ('M2', 'C', 8)]
+    u = [('M0', 'A', 2), ('M1', 'A', 2), ('M2', 'A', 2), ('M0', 'C', 8), ('M1', 'C', 8), ('M2', 'C', 8), ('M0', 'H', 4), ('M1', 'H', 4), ('M2', 'H', 4), ('M3', 'H', 4)]
     for name, d in corpus_files(4096):
         u.append(('corpus:' + name, 'A', 2))
     for name, d in corpus_files(4096):
@@ -560,7 +646,7 @@ def explore_unit(system, pass_, depth, tier, deadline):
         light = False
     try:
         all_iters = []
-        events = derive_events(data, max_dies=(40 if not light else 12), iterators=(system != 'M0n'), scramble=(pass_ in 'BC'), light=light, all_iters=all_iters)
+        events = derive_events(data, max_dies=(40 if not light else 12) if system != 'M3' else 6, iterators=(system not in ('M0n', 'M3')), scramble=(pass_ in 'BC'), light=light, all_iters=all_iters)
         if system == 'M0n':
             # the saturation model: DWARF queries only (ELF-level queries create no state), no suspended generators
             events = [e for e in events if e[0] in ('iter_CUs', 'CU_at', 'CU_containing', 'top_DIE', 'dump', 'DIE_at', 'parent', 'children', 'siblings', 'follow',
@@ -581,6 +667,13 @@ def explore_unit(system, pass_, depth, tier, deadline):
         ev0 = r0[1] if r0[0] == 'event' else ('open', r0[1], r0[2], 0)
         return dict(states=1, transitions=len(model.fresh_hangs), depth_completed=0, saturated=False, per_level=[], capped=None, system=system, events=len(events), model=model,
                     violations=[([ev0], ('terminates (a single query on a freshly opened object, pristine process)', 'still running after 15 s, or the interpreter died'))])
+    if pass_ == 'H':
+        alphabet, hs = held_family(events)
+        r = H.run_histories(model, alphabet, hs, normalise=False, deadline=deadline)
+        r['system'] = system
+        r['events'] = len(alphabet)
+        r['model'] = model
+        return r
     if pass_ == 'C':
         alphabet, hs = interleaving_family(events, all_iters, pairs=not light)
         r = H.run_histories(model, alphabet, hs, normalise=False, deadline=deadline)
